@@ -67,7 +67,20 @@ struct Graph {
     defect: Option<String>,
     /// import style per module: use `import` for foreign names instead of paths
     use_imports: bool,
+    /// syntactic position of the injected context read (index into CTX_FORMS)
+    ctx_form: usize,
 }
+
+/// Ways a context variable can be read (all are reads of `cv`, an i64).
+const CTX_FORMS: [(&str, &str); 7] = [
+    ("plain", "cv"),
+    ("method-receiver", "{ let s = cv.to_string(); let n: u64 = s.bytes().len(); n_to_i64(n) }"),
+    ("block", "{ let t = cv; t }"),
+    ("condition", "(if cv == 0 { 1 } else { 2 })"),
+    ("argument", "n_to_i64(n_of(cv))"),
+    ("operand-right", "(0 - cv)"),
+    ("match-scrutinee", "(match Some(cv) { Some(x) => x, None => 0 })"),
+];
 
 const MODS: [&str; 4] = ["pkg", "ma", "mb", "mc"];
 
@@ -153,7 +166,7 @@ impl Graph {
                     });
                 }
                 if ctx_read == Some(i) {
-                    terms.push("cv".to_string());
+                    terms.push(CTX_FORMS[self.ctx_form].1.to_string());
                 }
                 format!("const K{i}: i64 = {};\n", terms.join(" + "))
             }
@@ -164,7 +177,7 @@ impl Graph {
                     terms.push(if matches!(self.nodes[*d], Node::Func { .. }) { format!("{r}()") } else { r });
                 }
                 if ctx_read == Some(i) {
-                    terms.push("cv".to_string());
+                    terms.push(CTX_FORMS[self.ctx_form].1.to_string());
                 }
                 format!("fn f{i}() -> i64 {{\n    {}\n}}\n", terms.join(" + "))
             }
@@ -256,7 +269,7 @@ fn gen_graph(rng: &mut Rng) -> Graph {
     let module = (0..n).map(|_| rng.usize(n_modules)).collect();
     let mut order: Vec<usize> = (0..n).collect();
     rng.shuffle(&mut order);
-    Graph { nodes, module, n_modules, order, defect: None, use_imports: rng.bool() }
+    Graph { nodes, module, n_modules, order, defect: None, use_imports: rng.bool(), ctx_form: 0 }
 }
 
 /// Inject a cycle: returns a description, modifies the graph.
@@ -322,6 +335,7 @@ impl ConstOrder {
         let extra = || {
             library! {
                 fn n_to_i64(n: u64) -> i64 { n as i64 }
+                fn n_of(v: i64) -> u64 { v as u64 }
             }
         };
         let mut rt = Runtime::from_lib(lib()).unwrap();
@@ -367,9 +381,10 @@ impl Family for ConstOrder {
             // reaches (possibly through further functions)
             let consts: Vec<usize> = (0..g.nodes.len()).filter(|i| matches!(g.nodes[*i], Node::Const { .. })).collect();
             let a = consts[rng.usize(consts.len())];
+            g.ctx_form = rng.usize(CTX_FORMS.len());
             if rng.bool() {
                 ctx_read = Some(a);
-                g.defect = Some("context:direct".into());
+                g.defect = Some(format!("context:direct:{}", CTX_FORMS[g.ctx_form].0));
             } else {
                 let f1 = g.nodes.len();
                 let hops = 1 + rng.usize(2);
@@ -384,7 +399,7 @@ impl Family for ConstOrder {
                 if let Node::Const { deps } = &mut g.nodes[a] {
                     deps.push((f1, Via::Call));
                 }
-                g.defect = Some(format!("context:through-{hops}-function(s)"));
+                g.defect = Some(format!("context:through-{hops}-function(s):{}", CTX_FORMS[g.ctx_form].0));
             }
         }
         let files = g.sources(ctx_read);
